@@ -72,8 +72,8 @@ fn q_time() -> BoxedStrategy<u64> {
 
 pub fn query_strategy() -> BoxedStrategy<Query> {
     let tagc = (
-        prop_oneof![12 => prop::sample::select(vec!["e", "p", "t", "a", "d"]).prop_map(|s| s.to_string()), 1 => Just("E".to_string()), 1 => Just("client".to_string()), 1 => Just("".to_string())],
-        prop::collection::vec(prop_oneof![3 => 1u8..5, 1 => 0u8..20], 0..4),
+        prop_oneof![10 => prop::sample::select(vec!["e", "p"]).prop_map(|s| s.to_string()), 3 => prop::sample::select(vec!["t", "a", "d"]).prop_map(|s| s.to_string()), 1 => Just("E".to_string()), 1 => Just("client".to_string()), 1 => Just("".to_string())],
+        prop::collection::vec(prop_oneof![4 => 1u8..4, 1 => 0u8..20], 0..4),
     );
     (
         (
@@ -185,7 +185,8 @@ impl Prop for C05 {
         let cfg = EvCfg {
             authors: 3,
             kind_weights: [8, 2, 2, 1, 1],
-            tag_values: 4,
+            tag_values: 3,
+            tag_names: 2,
             ..EvCfg::default()
         };
         (history(w, cfg, tier.pick(30, 100)), prop::collection::vec(query_strategy(), 1..8))
